@@ -276,7 +276,9 @@ func C07Solo(i int) {
 	fmt.Print(compileSer(c07Sources[i]))
 }
 
-func init() { core.Subcommands["c07solo"] = func(args []string) { var i int; fmt.Sscan(args[0], &i); C07Solo(i) } }
+func init() {
+	core.Subcommands["c07solo"] = func(args []string) { var i int; fmt.Sscan(args[0], &i); C07Solo(i) }
+}
 
 func c07Pair(cs c07Case) core.Outcome {
 	var o core.Outcome
@@ -419,5 +421,5 @@ func min(a, b int) int {
 	return b
 }
 
-func C07NumSources() int    { return len(c07Sources) }
+func C07NumSources() int      { return len(c07Sources) }
 func C07Compile(i int) string { logrus.SetOutput(io.Discard); return compileSer(c07Sources[i]) }
